@@ -1,4 +1,97 @@
-import AffVerif.Model.Reduce
-/-! # C07 (theorems added below as they are proved) -/
+import AffVerif.Proofs.ArithLift
+import AffVerif.Props.C03
+/-!
+# C07 — tree arithmetic is the point-wise lifting of affine arithmetic
+
+`a ∘ b` for `∘ ∈ {+, −, *, /}` is `generic_composition_inplace` with the schema "decisions copied, terminals
+combined as `context ∘ original`"; it always prunes.  `leafAt t x` is the terminal map reached by `x`.
+No dimension hypothesis is needed for the lifting law itself: decisions of the right operand are copied unchanged.
+-/
+set_option linter.unusedSectionVars false
+set_option linter.unusedVariables false
 namespace AV
+variable {α : Type} [Field α] [LinearOrder α] [IsStrictOrderedRing α]
+
+/-- the un-pruned lifting reaches the terminal `op u v`, where `u`, `v` are the terminals reached in `a` and `b`;
+    it is undefined exactly when one of the operands is -/
+theorem C07_lift (op : Aff α → Aff α → Aff α) (a b : PT α) (c : Nat) (x : List α) :
+    PT.eval (PT.composeS (Schema.arith op) a b c).1 x =
+      (PT.leafAt a x).bind (fun u => (PT.leafAt b x).map (fun v => (op u v).apply x)) := by
+  rw [PT.eval_eq_leafAt, PT.leafAt_composeS_arith]
+  cases PT.leafAt a x <;> cases PT.leafAt b x <;> simp
+
+/-- the operator the crate computes (pruning on the fly, any backend that is right about infeasibility):
+    defined exactly when `a(x)` and `b(x)` are, value `(op u v)(x)` with operand order respected -/
+theorem C07_lift_pruned {σ : Type} (tol : α) (lp : LPOracle σ α) (hlp : InfeasibleSound lp)
+    (op : Aff α → Aff α → Aff α) (a b : PT α) (s : σ) (c : Nat) (x : List α) (n m : Nat)
+    (ha : PT.Shaped 2 n m a) (hb : PT.Shaped 2 n m b) (hc : PT.InfSound [] a) :
+    PT.eval (PT.composeP (Schema.arith op) (isEdgeFeasible tol lp) n [] a b s c).1 x =
+      (PT.leafAt a x).bind (fun u => (PT.leafAt b x).map (fun v => (op u v).apply x)) := by
+  rw [C03_arith_prune tol lp hlp op a b s c c x n m ha hb hc]
+  exact C07_lift op a b c x
+
+/-- `a + b` evaluates to `a(x) + b(x)` (terminals of equal shape) -/
+theorem C07_add_pointwise (a b : PT α) (c : Nat) (x : List α)
+    (hshape : ∀ u v, PT.leafAt a x = some u → PT.leafAt b x = some v → SameRows u.mat v.mat) :
+    PT.eval (PT.composeS (Schema.arith Aff.add) a b c).1 x =
+      (PT.eval a x).bind (fun p => (PT.eval b x).map (fun q => vadd p q)) := by
+  rw [C07_lift, PT.eval_eq_leafAt a, PT.eval_eq_leafAt b]
+  cases hu : PT.leafAt a x with
+  | none => simp
+  | some u =>
+    cases hv : PT.leafAt b x with
+    | none => simp
+    | some v => simp [Aff.apply_add u v x (hshape u v hu hv)]
+
+/-- `a − b` evaluates to `a(x) − b(x)` -/
+theorem C07_sub_pointwise (a b : PT α) (c : Nat) (x : List α)
+    (hshape : ∀ u v, PT.leafAt a x = some u → PT.leafAt b x = some v → SameRows u.mat v.mat) :
+    PT.eval (PT.composeS (Schema.arith Aff.sub) a b c).1 x =
+      (PT.eval a x).bind (fun p => (PT.eval b x).map (fun q => vsub p q)) := by
+  rw [C07_lift, PT.eval_eq_leafAt a, PT.eval_eq_leafAt b]
+  cases hu : PT.leafAt a x with
+  | none => simp
+  | some u =>
+    cases hv : PT.leafAt b x with
+    | none => simp
+    | some v => simp [Aff.apply_sub u v x (hshape u v hu hv)]
+
+/-- `−a` evaluates to `−a(x)` -/
+theorem C07_neg (a : PT α) (x : List α) :
+    PT.eval (PT.mapTerminals Aff.neg a) x = (PT.eval a x).map vneg :=
+  PT.eval_mapTerminals Aff.neg vneg a x (fun f => Aff.apply_neg f x)
+
+mutual
+theorem PT.leafAt_mapTerminals (φ : Aff α → Aff α) (t : PT α) (x : List α) :
+    PT.leafAt (PT.mapTerminals φ t) x = (PT.leafAt t x).map φ := by
+  match t with
+  | .node i c ks =>
+    cases hl : ks.allNone with
+    | true => simp [PT.mapTerminals, PT.leafAt, hl]
+    | false =>
+      simp only [PT.mapTerminals, PT.leafAt, hl, PKids.mapTerminals_allNone, Bool.false_eq_true, if_false]
+      exact PKids.leafAtK_mapTerminals φ ks _ x
+theorem PKids.leafAtK_mapTerminals (φ : Aff α → Aff α) (ks : PKids α) (l : Nat) (x : List α) :
+    PKids.leafAtK (PKids.mapTerminals φ ks) l x = (PKids.leafAtK ks l x).map φ := by
+  match ks, l with
+  | .nil, _ => simp [PKids.mapTerminals, PKids.leafAtK]
+  | .cons none r, 0 => simp [PKids.mapTerminals, PKids.leafAtK]
+  | .cons (some k) r, 0 => simp only [PKids.mapTerminals, PKids.leafAtK]; exact PT.leafAt_mapTerminals φ k x
+  | .cons none r, l+1 => simp only [PKids.mapTerminals, PKids.leafAtK]; exact PKids.leafAtK_mapTerminals φ r l x
+  | .cons (some k) r, l+1 => simp only [PKids.mapTerminals, PKids.leafAtK]; exact PKids.leafAtK_mapTerminals φ r l x
+end
+
+/-- the mixed forms: `tree ∘ f` combines every terminal `u` to `op u f`, `f ∘ tree` to `op f u` — operand order
+    is respected (`a − f ≠ f − a`) -/
+theorem C07_scalar_forms (op : Aff α → Aff α → Aff α) (a : PT α) (f : Aff α) (x : List α) :
+    PT.eval (PT.mapTerminals (fun u => op u f) a) x = (PT.leafAt a x).map (fun u => (op u f).apply x) ∧
+    PT.eval (PT.mapTerminals (fun u => op f u) a) x = (PT.leafAt a x).map (fun u => (op f u).apply x) := by
+  constructor <;>
+  · rw [PT.eval_eq_leafAt, PT.leafAt_mapTerminals]
+    cases PT.leafAt a x <;> simp
+
+/-! non-vacuity: `relu + relu` at `3` and `−2` -/
+example : PT.eval (PT.composeS (Schema.arith Aff.add) exRelu exRelu 10).1 [3] = some [6] := by decide +kernel
+example : PT.eval (PT.composeS (Schema.arith Aff.add) exRelu exRelu 10).1 [-2] = some [0] := by decide +kernel
+
 end AV
